@@ -76,6 +76,12 @@ static int cfg_print_pff_indent(cfg_t *cfg, FILE *fp,
 #define STATE_EOF -1
 #define STATE_ERROR 1
 
+#ifdef MARTINH_LIBCONFUSE_VERIF
+# include "cfg_verif_hooks.h"	/* supplied by the verification harness (-I), never by the normal build */
+#else
+# define CFG_VERIF_PI_ENTRY
+#endif
+
 #ifndef HAVE_FMEMOPEN
 extern FILE *fmemopen(void *buf, size_t size, const char *type);
 #endif
@@ -1315,6 +1321,7 @@ static int cfg_parse_internal(cfg_t *cfg, int level, int force_state, cfg_opt_t 
 	if (force_opt)
 		opt = force_opt;
 
+	CFG_VERIF_PI_ENTRY
 	while (1) {
 		int tok = cfg_yylex(cfg);
 
